@@ -190,4 +190,43 @@ theorem truediv (p q : ZPoly) : py_truediv p q = divZ p q := by
       · rfl
   · simp
 
+/-! ### ** -/
+
+theorem foldl_replicate (p : ZPoly) (hc : copyZ p none = p) (m : Nat) :
+    (List.replicate m p).foldl mulZ p = powLoopZ p m := by
+  induction m with
+  | zero => exact hc.symm
+  | succ m ih => rw [List.replicate_succ', List.foldl_append, ih]; rfl
+
+theorem ofPairs_single (k : Int) (v : PyNum) : ofPairs [(k, v)] = [(k, v)] := rfl
+
+theorem mul_fun : py_mul = mulZ := by funext a b; exact mul a b
+
+/-- `Poly.__pow__` with a number exponent.  Hypothesis: `p.copy()` has the same contents as `p` (true of every instance
+    the constructor produced: distinct powers, no stored zero) — the source multiplies copies, the model `p` itself. -/
+theorem pow (p : ZPoly) (n : Int) (ek : ExpKind) (hc : copyZ p none = p) :
+    Py.toPowRes (py_pow p n ek) = powZ p n ek := by
+  unfold py_pow powZ
+  by_cases hn : n = 0
+  · simp [hn, init_num, py_zero, Py.toPowRes]
+  · rw [copy] at *
+    simp only [hn, decide_false, if_false, Bool.false_eq_true]
+    obtain ⟨d, z⟩ := p
+    rcases d with _ | ⟨⟨k, v⟩, _ | ⟨b, t⟩⟩
+    · simp [init_none, py_zero, Py.toPowRes]
+    · cases hv : PyNum.eq v (.int 1)
+      · by_cases hz : n < 0 ∧ v.isZero = true
+        · simp [List.mapM_cons, Py.pow, hv, hz, bind, Except.bind, Py.toPowRes]
+        · simp [List.mapM_cons, Py.pow, hv, hz, bind, Except.bind, pure, Except.pure, Py.toPowRes, py_zero, init_some, ofPairs_single]
+      · simp [List.mapM_cons, hv, bind, Except.bind, pure, Except.pure, Py.toPowRes, py_zero, init_some, ofPairs_single]
+    · cases ek
+      case float => simp [Py.rep, Except.bind, Py.toPowRes]
+      all_goals
+        by_cases h1 : n ≤ 1
+        · have : (n - 1).toNat = 0 := by omega
+          simp [Py.rep, Except.bind, Py.toPowRes, Py.reduceMul, this, h1]
+        · obtain ⟨m, hm⟩ : ∃ m, (n - 1).toNat = m + 1 := ⟨(n - 1).toNat - 1, by omega⟩
+          simp only [Py.rep, Except.bind, Py.toPowRes, Py.reduceMul, hm, h1, if_false, List.replicate_succ, hc]
+          simp [List.foldl_append, mul_fun, foldl_replicate _ hc, powLoopZ]
+
 end ALV.C07.Src
